@@ -35,7 +35,9 @@ RULE = ('two streams. load: built-in plugins switched on/off by PLUGIN_<NAME> + 
 TRUSTED = ['list.sort is a stable sort (CPython)', 'the fake channel stands for a healthy service']
 ASSUMPTIONS = ['plugin callback failures are Exception-class (a BaseException from a plugin is contained by trace_call, C01, but '
                'may cost the rest of that action)',
-               'order() returns a finite number or None (inf / nan are not generated: nan has no position in any order)']
+               'order() returns None, something falsy, or a finite number of the EXACT types int / float / bool (inf / nan are '
+               'not generated: nan has no position in any order; a subclass of int whose comparison raises makes list.sort '
+               'raise out of load_plugins — audit a3, not generated)']
 
 BUILTIN = ['deep.api.plugin.otel.OTelPlugin', 'deep.api.plugin.python.PythonPlugin',
            'deep.api.plugin.metric.prometheus_metrics.PrometheusPlugin', 'deep.api.plugin.metric.otel_metrics.OTelMetrics']
@@ -83,11 +85,7 @@ def make_class(name, kind, rec, fail, order, ctor_raises=False):
     def order_(self):
         if order == 'raise':
             raise fc_env.PluginError('order() of ' + name)
-        if order == 'text':
-            return 'high'
-        if order == 'list':
-            return [1]
-        return order
+        return order_value(order)
     return type(name, bases, {'__init__': __init__, 'is_active': Plugin.is_active, 'order': order_})
 
 
@@ -147,8 +145,11 @@ def gen_load(rng):
             'customs': customs}
 
 
-ORDERS = [None, 0, 0, 1, -1, 5, -7, 2, 2, 100, 'raise', 'text', 'list', 1.5, 1.2, -0.5, 0.5, 2.0, True, False, 0.0, -1.5, 99.9]
-FRACTION_FAMILIES = [[1.5, 1.2, 1.7, 1, 1.0, True, 2], [-0.5, -0.25, 0, None, -0.75, 0.25, 0.0, -0.0, False],
+ORDERS = [None, 0, 0, 1, -1, 5, -7, 2, 2, 100, 'raise', 'text', 'list', 1.5, 1.2, -0.5, 0.5, 2.0, True, False, 0.0, -1.5, 99.9,
+          'empty_text', 'empty_list', 'empty_dict', 1e23, 10 ** 23, 2 ** 53 + 1, float(2 ** 53)]
+FRACTION_FAMILIES = [[1e23, 10 ** 23, 10 ** 23 + 1, 2 ** 53 + 1, float(2 ** 53), 2 ** 53, 9.999999999999999e22],
+                     ['empty_text', 'empty_list', 'empty_dict', 0, None, -1, 1, 0.0],
+                     [1.5, 1.2, 1.7, 1, 1.0, True, 2], [-0.5, -0.25, 0, None, -0.75, 0.25, 0.0, -0.0, False],
                      [0.5, 0.25, 0.75, 0, 1, True, False], [-1.5, -1.2, -1, -2, -1.0, -1.9], [2.5, 2.4, 2.6, 3, 2, 2.0, 3.0]]
 
 KIND_OF = {'r1': 'resource', 'r2': 'resource', 'd1': 'decorator', 'd2': 'decorator', 'lg1': 'logger', 'lg2': 'logger',
@@ -233,6 +234,15 @@ def corpus():
                      {'name': 'Q1', 'how': 'ok', 'switch': None, 'order': 0},
                      {'name': 'Q2', 'how': 'ctor_raises', 'switch': None, 'order': 0},
                      {'name': 'Q2', 'how': 'ok', 'switch': None, 'order': 1, 'module': 1}]},
+        # falsy non-numbers ('' / [] / {}): `order() or 0` runs before the number test, they count as 0 and ARE loaded;
+        # floats beyond 2^53 against ints: compared exactly (1e23 < 10**23)
+        {'kind': 'load', 'builtin_switch': [None, None, None, None],
+         'customs': [{'name': 'Q0', 'how': 'ok', 'switch': None, 'order': 'empty_text'},
+                     {'name': 'Q1', 'how': 'ok', 'switch': None, 'order': 10 ** 23},
+                     {'name': 'Q2', 'how': 'ok', 'switch': None, 'order': 1e23},
+                     {'name': 'Q3', 'how': 'ok', 'switch': None, 'order': 'empty_list'},
+                     {'name': 'Q4', 'how': 'ok', 'switch': None, 'order': -1},
+                     {'name': 'Q5', 'how': 'ok', 'switch': None, 'order': 'text'}]},
         # declared orders that collide when truncated or rounded, configured in the opposite sequence; bools; x.0 ties
         {'kind': 'load', 'builtin_switch': [None, None, None, None],
          'customs': [{'name': 'Q0', 'how': 'ok', 'switch': None, 'order': 1.5},
@@ -341,17 +351,43 @@ def load_specs(case):
     return out
 
 
+MARKERS = {'text': 'high', 'list': [1], 'empty_text': '', 'empty_list': [], 'empty_dict': {}}
+
+
+def order_value(order):
+    """what order() of the generated plugin returns for the order written in the case (JSON cannot carry every value)"""
+    if isinstance(order, str) and order in MARKERS:
+        return MARKERS[order]
+    return order
+
+
 def usable(order):
-    return order is None or (isinstance(order, (int, float)) and not isinstance(order, str))
+    """does the loader keep a plugin whose order() returns this?  The code computes `order() or 0` FIRST: everything
+    falsy (None, 0, 0.0, False, and also '', [], {}) counts as 0; otherwise it must be a number."""
+    if order == 'raise':
+        return False
+    v = order_value(order)
+    return (not v) or (isinstance(v, (int, float)) and not isinstance(v, str))
+
+
+def sort_key(order):
+    return order_value(order) or 0
 
 
 def model_order(o):
     """as the Lean driver reads it: null (None) | a number (a bool is the int it equals) | "unusable" """
     if not usable(o):
         return 'unusable'
-    if isinstance(o, bool):
-        return int(o)
-    return o
+    v = order_value(o)
+    if v is None:
+        return None
+    if not isinstance(v, (int, float)):
+        return 'falsy'                      # '', [], {}: `order() or 0` makes it 0 before the number test
+    if isinstance(v, float):
+        num, den = v.as_integer_ratio()     # the EXACT value of the float: num / 2^k = num * 5^k / 10^k
+        k = den.bit_length() - 1
+        return {'m': num * 5 ** k, 'e': k}
+    return {'m': int(v), 'e': 0}
 
 
 def model_switch(sw):
@@ -506,7 +542,7 @@ def oracle(case, obs):
     if case['kind'] == 'load':
         specs = load_specs(case)
         loadable = [s for s in specs if s[2] and s[3] and s[4] and usable(s[5])]
-        exp = [s[0] for s in sorted(loadable, key=lambda s: (s[5] or 0))]       # sorted() is stable
+        exp = [s[0] for s in sorted(loadable, key=lambda s: sort_key(s[5]))]       # sorted() is stable
         if obs['loaded'] != exp:
             got = obs['loaded']
             if sorted(got) != sorted(exp):
